@@ -152,3 +152,78 @@ def short_histories_rule(chk, rule, depth, file="circuit.py"):
     chk.floor("history calls explored", n_calls, 300)
     chk.extra["distinct_states_explored"] = len(seen)
     return n_calls
+
+
+def uid_pool():
+    A = lambda *a, **k: ("add", a, k)
+    return [
+        A("a", "input"), A("a", "buf", uid=True), A("a", "not", fanin="a", uid=True), A("a", "and", fanin=["a", "a_1"], uid=True, output=True),
+        A("a_0", "input"), A("a_1", "or", output=True), A("a_2", "input"),
+        ("remove", ("a_0",), {}), ("remove", ("a_1",), {}), ("connect", ("a", "a_1"), {}),
+    ]
+
+
+def uid_histories_rule(chk, rule, depth, file="circuit.py"):
+    """
+    Names handed out by add(..., uid=True) over every call sequence of the given length that mixes uid calls with explicit
+    additions / removals of exactly the suffixed names uid would pick (a_0, a_1, a_2).  No de-duplication on the observable
+    state: what an earlier uid call may have left behind (a remembered counter, a cached name) is not observable, and is
+    exactly what this rule is after.  After every uid call: the returned name was free before the call, every node that
+    existed keeps its type, output mark and fan-in, and the wiring invariants hold.
+    """
+    P = Package(chk.repo, full_stack=True)
+    pool = uid_pool()
+    fails = {}
+    n_calls = 0
+
+    def fanin_of(st):
+        fi = {}
+        for u, v in st["edges"]:
+            fi.setdefault(v, []).append(u)
+        return fi
+
+    def walk(seq):
+        nonlocal n_calls
+        d = Driver(P.cg.Circuit, P.cg.BlackBox)
+        hist = []
+        for i in seq:
+            op = pool[i]
+            before = state_of(d.c)
+            raised, ret = None, None
+            try:
+                ret = d.apply(op)
+            except ModelRaise as e:
+                raised = e.kind
+            except Unsupported as e:
+                raise AnalysisError(f"uid history {hist + [label(op)]}: unrecognised idiom: {e}", file)
+            n_calls += 1
+            hist.append(label(op))
+            if not op[2].get("uid"):
+                continue
+            after = state_of(d.c)
+            fb, fa = fanin_of(before), fanin_of(after)
+            problems = []
+            changed = [n for n, v in before["nodes"].items() if after["nodes"].get(n) != v or sorted(fb.get(n, [])) != sorted(fa.get(n, []))]
+            if changed:
+                problems.append(("add(uid=True) changed an existing node", str(changed)))
+            if raised is None and isinstance(ret, str) and ret in before["nodes"]:
+                problems.append(("add(uid=True) returned a name already in use", ret))
+            for b in illegal(after):
+                if b not in illegal(before):
+                    problems.append(("illegal wiring after add(uid=True)", b))
+            for kind, detail in problems:
+                fails.setdefault(kind, {"history": list(hist), "detail": detail, "raised": raised})
+
+    import itertools
+
+    for seq in itertools.product(range(len(pool)), repeat=depth):
+        # only sequences with at least two uid calls and one explicit edit of a suffixed name between / before them can differ
+        uids = [k for k, i in enumerate(seq) if pool[i][2].get("uid")]
+        if len(uids) < 2 or not any(not pool[i][2].get("uid") and str(pool[i][1][0]).startswith("a_") or pool[i][0] == "connect" for i in seq[: uids[-1]]):
+            continue
+        walk(seq)
+    for kind in ("add(uid=True) changed an existing node", "add(uid=True) returned a name already in use", "illegal wiring after add(uid=True)"):
+        chk.ob(rule, f"add(uid=True)::{kind}", kind not in fails, file=file, func="Circuit.uid", fact=fails.get(kind, {"depth": depth, "calls": n_calls}),
+               expect="a name that was free; every existing node keeps its type, output mark and fan-in")
+    chk.floor("uid history calls explored", n_calls, 1000)
+    return n_calls
